@@ -25,7 +25,7 @@ WORLD_INFO = {'real': ['ResponseFuture (PreparedQueryNotFound branch, _reprepare
                        'PreparedStatement/BoundStatement, ExecuteMessage/PrepareMessage encoding', 'Cluster, pools, Connection'],
               'stub': ['libev C binding', 'sockets/TCP', 'ThreadPoolExecutor', 'fake nodes with a per-node prepared cache (independent codec)']}
 ASSUMPTIONS = ['prepared ids are md5(keyspace|query) at the fake node; for protocol 4 the keyspace is the connection keyspace']
-REQUIRED_PROBES = ['unprepared_answer', 'reprepare_ok', 'reprepare_different_id', 'reprepare_error', 'reprepare_conn_loss',
+REQUIRED_PROBES = ['prepared_in_other_keyspace', 'unprepared_answer', 'reprepare_ok', 'reprepare_different_id', 'reprepare_error', 'reprepare_conn_loss',
                    'keyspace_changed_after_prepare']
 
 QUERY = "SELECT * FROM t WHERE k=? /*stmt*/"
@@ -46,6 +46,8 @@ def gen_plan(rng, tier):
         spec = {'delay': rng.choice([0.002, 0.005, 0.01]), 'max': 1}
     p['exec'] = {'spec': spec, 'executor_threads': rng.choice([1, 2]), 'default_timeout': 5.0}
     p['ks_switch'] = (p['version'] == 4 and rng.random() < 0.25)
+    # protocol 5 carries a keyspace per request: prepare in a keyspace other than the session's
+    p['prepare_ks'] = 'ks2' if (p['version'] >= 5 and rng.random() < 0.5) else None
     nreq = rng.choice([1, 2, 3])
     for i in range(nreq):
         order = list(range(n))
@@ -77,7 +79,9 @@ def run_plan(plan, seed, choices=None):
         session = w.session
         try:
             session.set_keyspace('ks1')
-            ps = session.prepare(QUERY)
+            ps = session.prepare(QUERY, keyspace=plan.get('prepare_ks')) if plan.get('prepare_ks') else session.prepare(QUERY)
+            if plan.get('prepare_ks'):
+                sim.probe('prepared_in_other_keyspace')
         except Exception as e:
             st['prepare_error'] = repr(e)
             return
@@ -165,7 +169,7 @@ def run_plan(plan, seed, choices=None):
             V.add('C19/reprepare', 'reprepare-on-other-node', 'request %d: UNPREPARED from node %d, PREPARE sent to node %d' % (i, u['node'], pr['node']))
         if pr.get('query') != QUERY:
             V.add('C19/reprepare', 'reprepare-other-text', 'request %d: re-prepared %r' % (i, pr.get('query')))
-        if plan['version'] >= 5 and pr.get('req_keyspace') not in (None,) and pr.get('req_keyspace') != st['ps'].keyspace:
+        if plan['version'] >= 5 and st['ps'].keyspace is not None and pr.get('req_keyspace') != st['ps'].keyspace:
             V.add('C19/reprepare', 'reprepare-other-keyspace', 'request %d: PREPARE keyspace %r, statement keyspace %r' % (i, pr.get('req_keyspace'), st['ps'].keyspace))
         beh = pr.get('behaviour')
         after_p = [e for e in after if e['sent_seq'] > pr['sent_seq']]
